@@ -53,6 +53,8 @@ func scenarios(tier string) []svc.Scenario {
 		{Name: "converter-restarted", Converter: true, Program: []string{"import:P1", "addtag:tag/p=cport:1", "converters:tag/p=conv", "convrestart:conv", "import:P3"}},
 		// a view is held while an import changes a tag's answer for a stream it shows and younger views evaluate the tag
 		{Name: "view-tag-snapshot", Program: []string{"addtag:tag/d=cdata:foo[23]", "import:P1+P2", "view.open:v1", "import:P3", "view.open:v2"}},
+		// one converter attached to two tags with different matches, then its executable is rewritten
+		{Name: "converter-two-tags-restarted", Converter: true, Program: []string{"import:P1+P2", "addtag:tag/p=cport:1", "converters:tag/p=conv", "addtag:service/q=sport:80", "converters:service/q=conv", "convrestart:conv"}},
 		{Name: "two-tags", Program: []string{"addtag:tag/p=cport:1", "addtag:tag/d=cdata:foo3", "import:P1", "import:P3"}},
 	}
 	if tier == "thorough" {
